@@ -14,6 +14,7 @@ import (
 	"path"
 	"path/filepath"
 	"slices"
+	"sync"
 	"text/template"
 	"time"
 
@@ -54,6 +55,9 @@ type HTMLReport struct {
 
 	// Logger is the slog logger instance.
 	Logger *slog.Logger
+
+	// mutex guards the results, as the backtest workers report concurrently.
+	mutex sync.Mutex
 }
 
 // htmlReportResult encapsulates the outcome of running a strategy.
@@ -103,6 +107,9 @@ func (h *HTMLReport) Begin(assetNames []string, _ []strategy.Strategy) error {
 
 // AssetBegin is called when backtesting for the given asset begins.
 func (h *HTMLReport) AssetBegin(name string, strategies []strategy.Strategy) error {
+	h.mutex.Lock()
+	defer h.mutex.Unlock()
+
 	_, ok := h.assetResults[name]
 	if ok {
 		return fmt.Errorf("asset has already begun: %s", name)
@@ -138,32 +145,44 @@ func (h *HTMLReport) Write(assetName string, currentStrategy strategy.Strategy, 
 	}
 
 	// Get asset strategy results.
-	results, ok := h.assetResults[assetName]
+	h.mutex.Lock()
+	_, ok := h.assetResults[assetName]
+	h.mutex.Unlock()
+
 	if !ok {
 		return fmt.Errorf("asset has not begun: %s", assetName)
 	}
 
 	// Append current strategy result for the asset.
-	h.assetResults[assetName] = append(results, &htmlReportResult{
+	result := &htmlReportResult{
 		AssetName:    assetName,
 		StrategyName: currentStrategy.Name(),
 		Action:       <-actions,
 		Since:        <-sinces,
 		Outcome:      <-outcomes * 100,
 		Transactions: <-transactions,
-	})
+	}
+
+	h.mutex.Lock()
+	h.assetResults[assetName] = append(h.assetResults[assetName], result)
+	h.mutex.Unlock()
 
 	return nil
 }
 
 // AssetEnd is called when backtesting for the given asset ends.
 func (h *HTMLReport) AssetEnd(name string) error {
+	h.mutex.Lock()
+
 	results, ok := h.assetResults[name]
 	if !ok {
+		h.mutex.Unlock()
 		return fmt.Errorf("asset has not begun: %s", name)
 	}
 
 	delete(h.assetResults, name)
+
+	h.mutex.Unlock()
 
 	// Sort the backtest results by the outcomes.
 	slices.SortFunc(results, func(a, b *htmlReportResult) int {
@@ -174,7 +193,9 @@ func (h *HTMLReport) AssetEnd(name string) error {
 
 	// Report the best result for the current asset.
 	h.Logger.Info("Best outcome", "asset", name, "strategy", bestResult.StrategyName, "outcome", bestResult.Outcome)
+	h.mutex.Lock()
 	h.bestResults = append(h.bestResults, bestResult)
+	h.mutex.Unlock()
 
 	// Write the asset report.
 	err := h.writeAssetReport(name, results)
